@@ -143,7 +143,13 @@ def first_diff(a, b, path=''):
 
 
 def printed(e):
-    return {n: str(c) for n, c in e.rules.items()}
+    out = {}
+    for n, c in list(e.rules.items()):
+        try:
+            out[n] = str(c)
+        except Exception as ex:      # noqa - e.g. RecursionError on a
+            out[n] = 'EXC:' + type(ex).__name__   # runaway check tree
+    return out
 
 
 # ------------------------------------------------------------ execution
